@@ -34,6 +34,13 @@ type histCase struct {
 	Init   *string `json:"init"` // text of the pre-existing file; null = no file
 	Mode   uint32  `json:"mode"` // mode of the pre-existing file
 	SubDir bool    `json:"subdir"`
+	// Depth: number of directory levels between the base and the config file when SubDir
+	// (0 = 1); they are missing when Init == nil, so MkdirAll has to create all of them.
+	Depth int `json:"depth,omitempty"`
+	// Symlink: the config path is a symbolic link to the real file (only with Init != nil).
+	Symlink bool `json:"symlink,omitempty"`
+	// DisablePut: FileStore.DisablePut = true.
+	DisablePut bool `json:"disable_put,omitempty"`
 	Ops    []opx   `json:"ops"`
 }
 
@@ -53,6 +60,8 @@ func resultStr(c *auth.Credential, err error) string {
 		return "ok"
 	case errors.Is(err, credentials.ErrBadCredentialFormat):
 		return "badcred"
+	case errors.Is(err, credentials.ErrPlaintextPutDisabled):
+		return "putdisabled"
 	case isFormatErr(err):
 		return "efmt"
 	}
@@ -151,24 +160,34 @@ func runHistory(hc histCase) {
 		panic(err)
 	}
 	defer os.RemoveAll(base)
-	dir := base
-	if hc.SubDir {
-		dir = filepath.Join(base, "cfgdir")
-	}
+	dir, levels := subDirs(base, hc.SubDir, hc.Depth)
 	path := filepath.Join(dir, "config.json")
+	target := "" // the real file when the config path is a symbolic link
 	var initDoc *jv
 	if hc.Init != nil {
 		if hc.SubDir {
-			os.Mkdir(dir, 0o755)
+			os.MkdirAll(dir, 0o755)
 		}
 		mode := os.FileMode(hc.Mode)
 		if mode == 0 {
 			mode = 0o644
 		}
-		if err := os.WriteFile(path, []byte(*hc.Init), mode); err != nil {
+		real := path
+		if hc.Symlink {
+			os.Mkdir(filepath.Join(base, "real"), 0o755)
+			target = filepath.Join(base, "real", "target.json")
+			real = target
+		}
+		if err := os.WriteFile(real, []byte(*hc.Init), mode); err != nil {
 			panic(err)
 		}
-		os.Chmod(path, mode)
+		os.Chmod(real, mode)
+		if hc.Symlink {
+			if err := os.Symlink(target, path); err != nil {
+				panic(err)
+			}
+			run.Count("init:symlinked-path")
+		}
 		var ok bool
 		initDoc, ok = parseJSON([]byte(*hc.Init))
 		if !ok {
@@ -195,6 +214,10 @@ func runHistory(hc histCase) {
 	fail := func(sig, msg string) { run.OracleFail(id, sig, msg, hc) }
 
 	fs, err := credentials.NewFileStore(path)
+	if err == nil && hc.DisablePut {
+		fs.DisablePut = true
+		run.Count("store:disable-put")
+	}
 	if err != nil {
 		run.Count("init:loaderror")
 		if !isFormatErr(err) {
@@ -236,6 +259,21 @@ func runHistory(hc histCase) {
 	}
 
 	ctx := context.Background()
+	// reference: the in-memory Store of the same package, when the history starts from a missing
+	// config and uses plain host addresses only (C18_refines_memory_store)
+	var mem credentials.Store
+	if hc.Init == nil && !hc.DisablePut {
+		mem = credentials.NewMemoryStore()
+		for _, o := range hc.Ops {
+			if toHostnameOracle(o.Addr) != o.Addr {
+				mem = nil
+				break
+			}
+		}
+		if mem != nil {
+			run.Count("ref:memory-store")
+		}
+	}
 	var results, digests []string
 	var modelOps []string
 	finalCanon := canonDoc(initDoc)
@@ -255,6 +293,11 @@ func runHistory(hc histCase) {
 				res = credStr(c)
 			}
 			modelOps = append(modelOps, fmt.Sprintf("G %s %s", common.Hex(o.Addr), res))
+			if mem != nil {
+				if mc, merr := mem.Get(ctx, o.Addr); merr != nil || err != nil || mc != c {
+					fail("differs-from-memory-store", fmt.Sprintf("Get(%q): file store %v %v, memory store %v %v", o.Addr, c, err, mc, merr))
+				}
+			}
 			// oracle: read back what was stored / nothing after a delete
 			if p := lastPut[o.Addr]; p != nil {
 				if err != nil || c != p.cred() {
@@ -274,6 +317,7 @@ func runHistory(hc histCase) {
 				}
 			}
 		case "P":
+			beforePut, _ := os.ReadFile(path)
 			err, pan := safePut(fs, o.Addr, o.cred())
 			res = resultStr(nil, err)
 			if pan != nil {
@@ -282,7 +326,14 @@ func runHistory(hc histCase) {
 				return
 			}
 			modelOps = append(modelOps, fmt.Sprintf("P %s %s %s %s %s", common.Hex(o.Addr), common.Hex(o.U), common.Hex(o.P), common.Hex(o.R), common.Hex(o.A)))
-			if strings.Contains(o.U, ":") {
+			if hc.DisablePut {
+				if !errors.Is(err, credentials.ErrPlaintextPutDisabled) {
+					fail("disable-put-ignored", fmt.Sprintf("Put(%q) with DisablePut returned %v", o.Addr, err))
+				}
+				if after, _ := os.ReadFile(path); string(after) != string(beforePut) {
+					fail("disable-put-wrote", fmt.Sprintf("Put(%q) with DisablePut changed the config file", o.Addr))
+				}
+			} else if strings.Contains(o.U, ":") {
 				if !errors.Is(err, credentials.ErrBadCredentialFormat) {
 					fail("colon-accepted", fmt.Sprintf("Put with user %q returned %v", o.U, err))
 				}
@@ -291,6 +342,9 @@ func runHistory(hc histCase) {
 				if err != nil {
 					fail("put-error", fmt.Sprintf("Put(%q) failed: %v", o.Addr, err))
 				} else {
+					if mem != nil {
+						mem.Put(ctx, o.Addr, o.cred())
+					}
 					oo := o
 					lastPut[o.Addr] = &oo
 					touched[o.Addr] = true
@@ -312,6 +366,9 @@ func runHistory(hc histCase) {
 			if err != nil {
 				fail("delete-error", fmt.Sprintf("Delete(%q) failed: %v", o.Addr, err))
 			} else {
+				if mem != nil {
+					mem.Delete(ctx, o.Addr)
+				}
 				delete(wantEntry, o.Addr)
 				delete(lastPut, o.Addr)
 				touched[o.Addr] = true
@@ -393,8 +450,25 @@ func runHistory(hc histCase) {
 		}
 	}
 	if saved && hc.SubDir && hc.Init == nil {
-		if st, err := os.Stat(dir); err == nil && st.Mode().Perm() != 0o700 {
-			fail("dir-mode", fmt.Sprintf("created config directory has mode %o", st.Mode().Perm()))
+		for _, l := range levels {
+			if st, err := os.Stat(l); err != nil || st.Mode().Perm() != 0o700 {
+				fail("dir-mode", fmt.Sprintf("config directory level %s created by the save: %v, want mode 700", strings.TrimPrefix(l, base), st))
+			}
+		}
+		run.Count(fmt.Sprintf("init:missing-dir-levels=%d", len(levels)))
+	}
+	if target != "" {
+		// a symlinked config path.  The code replaces the NAME (the link disappears, the target keeps
+		// the old document); keeping the link and replacing the target atomically would be just as
+		// good for the property, so the oracle accepts both: the target holds the complete old
+		// document or exactly what the path now reads -- never anything else.
+		tgt, terr := os.ReadFile(target)
+		cur, _ := os.ReadFile(path)
+		if terr != nil || (string(tgt) != *hc.Init && string(tgt) != string(cur)) {
+			fail("symlink-target-damaged", "the file the config symlink pointed to is neither the old document nor the current one")
+		}
+		if li, err := os.Lstat(path); err == nil && !saved && li.Mode()&os.ModeSymlink == 0 {
+			fail("symlink-replaced-without-save", "the config symlink was replaced although nothing was saved")
 		}
 	}
 	// reopening the file gives the same answers (the secrets really are in the file)
@@ -417,9 +491,24 @@ func runHistory(hc histCase) {
 		run.Count("init:doc")
 	}
 	if judged {
+		initMode, finalMode := "-", "-"
+		if hc.Init != nil {
+			m := hc.Mode
+			if m == 0 {
+				m = 0o644
+			}
+			initMode = fmt.Sprintf("%o", m)
+		}
+		if st, err := os.Stat(path); err == nil {
+			finalMode = fmt.Sprintf("%o", st.Mode().Perm())
+		}
 		line := fmt.Sprintf("H %s %d %s", initTok, len(modelOps), strings.Join(modelOps, " "))
-		obs := fmt.Sprintf("RES %s FILES %s FINAL %s", strings.Join(results, " "), strings.Join(digests, " "), finalCanon)
-		run.Case(id, strings.TrimSpace(line), obs)
+		line = strings.TrimSpace(line) + " MODE " + initMode
+		if hc.DisablePut {
+			line += " DP 1"
+		}
+		obs := fmt.Sprintf("RES %s FILES %s FINAL %s MODE %s", strings.Join(results, " "), strings.Join(digests, " "), finalCanon, finalMode)
+		run.Case(id, line, obs)
 	} else {
 		run.Count("unjudged:case-variant-field")
 		run.Evaluations++
@@ -432,4 +521,23 @@ func runHistory(hc histCase) {
 		run.Nontrivial(js)
 		run.Sample(hc)
 	}
+}
+
+// subDirs returns the config directory and the directory levels below base
+// (outermost first) for a sub-directory configuration.
+func subDirs(base string, sub bool, depth int) (string, []string) {
+	if !sub {
+		return base, nil
+	}
+	if depth < 1 {
+		depth = 1
+	}
+	names := []string{"cfgdir", "l2", "l3", "l4"}
+	dir := base
+	var levels []string
+	for i := 0; i < depth && i < len(names); i++ {
+		dir = filepath.Join(dir, names[i])
+		levels = append(levels, dir)
+	}
+	return dir, levels
 }
